@@ -47,6 +47,9 @@ impl Vm {
             (VCell::Number(left), VCell::Number(right)) => Ok(left == right
                 && matches!(left, Number::Float(_)) == matches!(right, Number::Float(_))),
             (VCell::Nil, VCell::Nil) => Ok(true),
+            // values without a location are the same object whenever they are the same value
+            (VCell::Void, VCell::Void) => Ok(true),
+            (VCell::Undefined, VCell::Undefined) => Ok(true),
             (VCell::Pair(_, _), VCell::Pair(_, _)) => Ok(left == right),
             (VCell::Char(left), VCell::Char(right)) => Ok(left == right),
             // a string is the same object only where it is the same location
